@@ -59,16 +59,34 @@ TempNames == {"x", "y"}                    \* a,b possibly module symbols; u nev
 ModNames == {"a", "b"}                     \* a: code block of the module, b: proxy of the module
 SecNames == {"text", "data"}
 
-InsnKinds == {"op", "lea", "jmp", "jcc", "call", "ret", "ijmp", "icall"}
+\* ordinary instructions with one symbolic operand, by the form of the operand:
+\*   lea    address of L+K        (x86 lea, ARM64 adr, MIPS lui %hi)
+\*   ldlit  PC-relative literal load of L+K (ARM64 ldr x0, L+K; MIPS lw %lo(L+K)(r))
+\*   pg     page / high part      (ARM64 adrp L+K; MIPS lui %hi(L+K))
+\*   lo     low part              (ARM64 add :lo12:L+K; MIPS addiu %lo(L+K))
+\*   got    GOT page / GOT entry  (ARM64 adrp :got:L+K; MIPS lw %got(L+K)(gp))
+\*   gotlo  GOT low part / call   (ARM64 ldr [x, :got_lo12:L+K]; MIPS lw %call16(L+K)(gp))
+\* The addend and the modifier change no byte of the encoding: they live only
+\* in the symbolic expression.
+RefOpKinds == {"lea", "ldlit", "pg", "lo", "got", "gotlo"}
+InsnKinds == {"op", "jmp", "jcc", "call", "ret", "ijmp", "icall"} \cup RefOpKinds
 Terminators == {"jmp", "jcc", "call", "ret", "ijmp", "icall"}
 DataKinds == {"byte", "quad", "zero", "string", "ascii", "uleb"}
 EncodedKinds == {"string", "ascii", "uleb"}
 CfiKinds == {"cfistart", "cfiend", "cfidef"}
 DirectKinds == {"jmp", "jcc", "call"}
 \* control can run off the end of a unit of this kind
-Falls(k) == k \in {"op", "lea", "jcc", "call", "icall", "byte", "quad", "zero"}
-HasRef(t) == t.k \in {"jmp", "jcc", "call", "lea", "quad"} \/ (t.k = "uleb" /\ t.l # "")
-ClassOf(k) == IF k = "lea" THEN "op" ELSE k
+Falls(k) == k \in {"op", "jcc", "call", "icall", "byte", "quad", "zero"} \cup RefOpKinds
+HasRef(t) == t.k \in {"jmp", "jcc", "call", "quad"} \cup RefOpKinds \/ (t.k = "uleb" /\ t.l # "")
+ClassOf(k) == IF k \in RefOpKinds THEN "op" ELSE k
+\* attribute set of the operand form on each ISA (sorted names)
+AttrsOf(isa, k) ==
+  IF isa = "arm64"
+  THEN CASE k = "lo" -> <<"LO12">> [] k = "got" -> <<"GOT">> [] k = "gotlo" -> <<"GOT", "LO12">> [] OTHER -> <<>>
+  ELSE IF isa = "mips32"
+  THEN CASE k \in {"lea", "pg"} -> <<"HI">> [] k \in {"lo", "ldlit"} -> <<"LO">>
+         [] k \in {"got", "gotlo"} -> <<"GOT">> [] OTHER -> <<>>
+  ELSE <<>>
 
 Op == T("op", "", 0, 1)
 Op5 == T("op", "", 1, 5)
@@ -80,6 +98,9 @@ Ret == T("ret", "", 0, 1)
 IJmp == T("ijmp", "", 0, 2)
 ICall == T("icall", "", 0, 2)
 Lea(l, a) == T("lea", l, a, 7)
+RefOp(k, l, a) == T(k, l, a, 4)
+JccOff(l) == T("jcc", l, 4, 2)
+CallOff(l) == T("call", l, 8, 5)
 Label(l) == T("label", l, 0, 0)
 Byte(n) == T("byte", "", n, n)
 Quad(l, a) == T("quad", l, a, 8)
@@ -107,6 +128,12 @@ VocabOf(v) ==
                         Sec("data"), Sec("text")>>
     [] v = "chunk" -> <<Op, Jmp("x"), Label("x"), Byte(1), Ret, Call("a"), Quad("x", 0), Jcc("y"), Label("y")>>
     [] v = "chunk2" -> <<Lea("b", 4), Jmp("x"), Label("x"), Str, Ret, Sec("data"), Align(4), Label("g"), Jmp("g")>>
+    \* operand forms whose addend / modifier is invisible in the bytes (ARM64, MIPS32),
+    \* and transfers whose target has an addend (refused)
+    [] v = "ops"   -> <<Op, Label("x"), RefOp("ldlit", "a", 8), RefOp("ldlit", "x", 0), RefOp("pg", "a", 8),
+                        RefOp("pg", "b", 0), RefOp("lo", "a", 8), RefOp("lo", "x", 4), RefOp("got", "a", 0),
+                        RefOp("got", "b", 4), RefOp("gotlo", "a", 0), RefOp("lea", "a", 8),
+                        JmpOff("a"), JccOff("x"), CallOff("b")>>
     [] v = "mini"  -> <<Op, Jmp("x"), Label("x"), Byte(1), Ret>>
 Vocab == VocabOf(VocabName)
 
@@ -345,7 +372,7 @@ C12_Alignment(V) ==
 ExpAttrs(V, t, tgt) ==
   IF V.P.plt /\ t.k \in DirectKinds /\ tgt.k \in {"mod", "symp"} /\ (tgt.k = "symp" \/ t.l = "b")
   THEN <<"PLT">>
-  ELSE IF V.P.mips /\ t.k = "lea" THEN <<"HI">> ELSE <<>>
+  ELSE IF t.k \in RefOpKinds THEN AttrsOf(V.P.isa, t.k) ELSE <<>>
 ExpNameOrRaw(V, l) == IF LabelIdx(V, l) # {} THEN ExpName(V.P, l) ELSE V.P.rn[l]
 OperandOK(V, dec, i) ==
   LET t == V.toks[i]
@@ -419,6 +446,13 @@ CfiInOneSection(V) ==
          ELSE V.pos[Max(st0)].sec = V.pos[i].sec
 InDomain(V) == CfiInOneSection(V)
 Completes(V) == V.exc = "" \/ V.exc \in AllowedRefusals(V)
+\* C12_TargetsNoOffset: a call or branch whose target carries an addend is
+\* refused (the CFG cannot express it), never assembled to an edge
+HasTargetOffset(V) == \E i \in Idx(V) : V.toks[i].k \in DirectKinds /\ V.toks[i].a # 0
+C12_TargetsNoOffset(V) ==
+  /\ (HasTargetOffset(V) => V.exc # "")
+  /\ (HasTargetOffset(V) /\ AllowedRefusals(V) = {"UnsupportedAssemblyError"}
+        => V.exc = "UnsupportedAssemblyError")
 \* C13 error discipline
 C13_MultipleDefinitions(V) ==
   /\ (V.exc = "MultipleDefinitionsError" => HasConflict(V))
@@ -545,13 +579,13 @@ DoLabel(s, t) ==
 
 \* _Streamer.emit_instruction
 DoInsn(s, P, t) ==
-  LET hasref == t.k \in {"jmp", "jcc", "call", "lea"}
+  LET hasref == t.k \in DirectKinds \cup RefOpKinds
       r == IF hasref THEN Resolve(s, P, t.l) ELSE [st |-> s, err |-> "", ref |-> 0, nm |-> ""]
   IN  IF r.err # "" THEN Fail(s, r.err)
       ELSE
       LET s0 == r.st
           at == IF t.k \in DirectKinds /\ P.plt /\ IsProxyId(r.ref) THEN <<"PLT">>
-                ELSE IF P.mips /\ t.k = "lea" THEN <<"HI">> ELSE <<>>
+                ELSE IF t.k \in RefOpKinds THEN AttrsOf(P.isa, t.k) ELSE <<>>
           s1 == IF hasref THEN [s0 EXCEPT !.sx = @ \cup {Sx(s0, "C", r.nm, "", t.a, at, 0)}] ELSE s0
           s2 == [AppendData(s1, t.n) EXCEPT !.code = @ \cup {CurB(s1)}]
           c == CurB(s2)
@@ -829,8 +863,12 @@ ModelView(toks, P, s) ==
 (***************************************************************************)
 (* Part 4.  Behaviour and invariants                                       *)
 (***************************************************************************)
-Params == {[tu |-> tu, au |-> au, icfi |-> ic, sfx |-> "_7", ms |-> ms, plt |-> FALSE, mips |-> FALSE, rn |-> IdNames] :
-              tu \in TUs, au \in AUs, ic \in ICFIs, ms \in MSs}
+\* (the ISA matters to the model only through the attribute table and the
+\*  MIPS return idiom; the "ops" vocabulary is explored for ARM64 and MIPS32)
+ModelISAs == IF VocabName = "ops" THEN {"arm64", "mips32"} ELSE {"x64"}
+Params == {[tu |-> tu, au |-> au, icfi |-> ic, sfx |-> "_7", ms |-> ms, plt |-> FALSE, isa |-> isa,
+            mips |-> isa = "mips32", rn |-> IdNames] :
+              tu \in TUs, au \in AUs, ic \in ICFIs, ms \in MSs, isa \in ModelISAs}
 TotalLen(p) == SumSeq([i \in DOMAIN p |-> Len(p[i])])
 SeqsUpTo(n) == UNION {[1..m -> DOMAIN Vocab] : m \in 1..n}
 
@@ -852,7 +890,7 @@ Emitting(kinds) ==
   /\ st' = Step(st, par, Head(inp)) /\ inp' = Tail(inp)
   /\ UNCHANGED <<par, prog, ph, fin>>
 EmitLabel == Emitting({"label"})
-EmitInsnPlain == Emitting({"op", "lea"})
+EmitInsnPlain == Emitting({"op"} \cup RefOpKinds)
 EmitInsnDirect == Emitting(DirectKinds)
 EmitInsnRet == Emitting({"ret"})
 EmitInsnIndirect == Emitting({"ijmp", "icall"})
@@ -882,7 +920,7 @@ Spec == Init /\ [][Next]_vars
 \* Invariants: the Level A clauses hold of the model's own results
 CaseJson ==
   [toks |-> Flat(prog), tu |-> par.tu, au |-> par.au, icfi |-> par.icfi, ms |-> SetToSeq(par.ms),
-   mexc |-> fin.err]
+   mexc |-> fin.err, misa |-> par.isa]
 LevelA(V, dec) ==
   /\ C12_Decode(V, dec) /\ C12_Tiling(V) /\ C12_TerminatorsEndBlocks(V) /\ C12_EdgeShape(V)
   /\ C12_Fallthrough(V) /\ C12_Labels(V) /\ (HasCfi(V) \/ C12_DataConversion(V))
@@ -896,7 +934,7 @@ InvDone ==
         V == ModelView(toks, par, fin)
         dec == NominalDec(toks)
     IN  /\ (InDomain(V) => Completes(V))
-        /\ (InDomain(V) => C13_MultipleDefinitions(V) /\ C13_Undef(V))
+        /\ (InDomain(V) => C13_MultipleDefinitions(V) /\ C13_Undef(V) /\ C12_TargetsNoOffset(V))
         /\ (V.exc = "" => LevelA(V, dec))
         /\ (Len(prog) > 1 /\ ChunkingDomain(V) /\ InDomain(V) =>
               LET w == RunAll(par, <<WholeChunk(toks)>>)
